@@ -8,9 +8,14 @@ package core
 //   core   - a new-height announcement by one of 1..n consensus endpoints, handled by the REAL Listener
 //            (handleNewBlockEvent) whose fetcher is the REAL MultiSource over scripted fake endpoints;
 //   avail  - the REAL full.ShareAvailability.SharesAvailable on the same store with a scripted getter;
-//   xchg   - the REAL Exchange.GetByHeight over the REAL BlockFetcher with a scripted gRPC BlockAPI client.
+//   xchg   - the REAL Exchange.GetByHeight over the REAL BlockFetcher with a scripted gRPC BlockAPI client;
+//   xhash  - the REAL Exchange.Get (header BY HASH) over the same scripted client (BlockByHash + Commit + ValidatorSet):
+//            the endpoint serves the requested block, or a block whose hash is NOT the requested one (another block of
+//            the history, or a block of that height with another square), or fails.
 // Blocks are real signed blocks (headertest keys) with random transactions / real PayForBlobs transactions and
-// timestamps inside or far outside the availability window; squares are built by the real da.ConstructEDS.
+// timestamps a minute old, far outside the availability window, or at the window's EDGE (30 minutes inside
+// availability.StorageWindow - every ingest path must still treat them as inside); squares are built by the real
+// da.ConstructEDS.
 // Part of the histories runs through Listener.Start and the real subscription fan-in instead of direct calls.
 //
 // L2: the history with every scripted outcome and the observed result codes, final store (height, DAH, has Q4),
@@ -70,13 +75,15 @@ const c15Chain = "c15-chain"
 // ---------------------------------------------------------------- history description (replayable JSON)
 
 type c15Op struct {
-	Kind string `json:"kind"` // core | avail | xchg
+	Kind string `json:"kind"` // core | avail | xchg | xhash
 	// the block / header concerned
 	Height      int64  `json:"height"`       // announced / requested height
 	ServeHeight int64  `json:"serve_height"` // header height of the served block (== Height for well-behaved sources)
 	TxSet       int    `json:"txset"`        // index into the pool of transaction sets (0 = no transactions)
 	InWindow    bool   `json:"in_window"` // what the node treats as inside its window (a disabled window: everything)
 	Old         bool   `json:"old"`       // block time far outside the default storage window
+	Edge        bool   `json:"edge"`      // block time in the last hour of the storage window (still inside: in_window is true)
+	HashOK      bool   `json:"hash_ok"`   // xhash: the served block is the one whose hash was requested
 	Consistent  bool   `json:"consistent"` // header.DataHash commits to the square
 	ChainOK     bool   `json:"chain_ok"`
 	AppVersion  uint64 `json:"app_version"` // 0 makes da.ConstructEDS fail
@@ -154,11 +161,20 @@ func c15NewWorld(t *testing.T, rng *zv.Rand, nSets int) *c15World {
 	return w
 }
 
-func c15BlockTime(inWindow bool) time.Time {
-	if inWindow {
-		return time.Now().Add(-time.Minute).UTC()
+// c15EdgeMargin: how far inside the storage window an "edge" block lies. The block time is taken when the block is
+// built, i.e. within the operation that uses it, so the margin only has to cover one operation (milliseconds).
+const c15EdgeMargin = 30 * time.Minute
+
+// c15BlockTime: three classes of block time, all relative to the window constant read from the code under test:
+// a minute old; far outside (window + 48h); at the edge = inside availability.StorageWindow by c15EdgeMargin.
+func c15BlockTime(old, edge bool) time.Time {
+	switch {
+	case old:
+		return time.Now().Add(-availability.StorageWindow - 48*time.Hour).UTC()
+	case edge:
+		return time.Now().Add(-availability.StorageWindow + c15EdgeMargin).UTC()
 	}
-	return time.Now().Add(-availability.StorageWindow - 48*time.Hour).UTC()
+	return time.Now().Add(-time.Minute).UTC()
 }
 
 // signedBlock builds the real signed block an endpoint serves for op.
@@ -166,7 +182,7 @@ func (w *c15World) signedBlock(op *c15Op) *SignedBlock {
 	ts := w.pool[op.TxSet]
 	h := headertest.RandRawHeader(w.t)
 	h.Height = op.ServeHeight
-	h.Time = c15BlockTime(!op.Old)
+	h.Time = c15BlockTime(op.Old, op.Edge)
 	h.ChainID = c15Chain
 	if !op.ChainOK {
 		h.ChainID = "some-other-chain"
@@ -308,6 +324,61 @@ type c15Client struct {
 	coregrpc.BlockAPIClient
 	w   *c15World
 	cur *c15Op
+	sb  *SignedBlock // xhash: the block served by BlockByHash (and whose commit / validator set are served after it)
+}
+
+type c15HashStream struct {
+	grpc.ClientStream
+	resps []*coregrpc.BlockByHashResponse
+}
+
+func (s *c15HashStream) Recv() (*coregrpc.BlockByHashResponse, error) {
+	if len(s.resps) == 0 {
+		return nil, errors.New("stream exhausted")
+	}
+	r := s.resps[0]
+	s.resps = s.resps[1:]
+	return r, nil
+}
+
+// BlockByHash serves the scripted block whatever hash is asked for (the script decides whether that is the block
+// with the requested hash), or fails.
+func (c *c15Client) BlockByHash(_ context.Context, _ *coregrpc.BlockByHashRequest, _ ...grpc.CallOption) (coregrpc.BlockAPI_BlockByHashClient, error) {
+	if !c.cur.FetchOK || c.sb == nil {
+		return nil, errors.New("scripted fetch failure")
+	}
+	blk := &types.Block{Header: *c.sb.Header, Data: *c.sb.Data, LastCommit: &types.Commit{}}
+	ps, err := blk.MakePartSet(types.BlockPartSizeBytes)
+	if err != nil {
+		return nil, err
+	}
+	st := &c15HashStream{}
+	for i := 0; i < int(ps.Total()); i++ {
+		pp, err := ps.GetPart(i).ToProto()
+		if err != nil {
+			return nil, err
+		}
+		st.resps = append(st.resps, &coregrpc.BlockByHashResponse{BlockPart: pp, IsLast: i == int(ps.Total())-1})
+	}
+	return st, nil
+}
+
+func (c *c15Client) Commit(_ context.Context, req *coregrpc.CommitRequest, _ ...grpc.CallOption) (*coregrpc.CommitResponse, error) {
+	if c.sb == nil || c.cur.Sync == "fail" || req.Height != c.sb.Header.Height {
+		return nil, errors.New("scripted commit failure")
+	}
+	return &coregrpc.CommitResponse{Commit: c.sb.Commit.ToProto()}, nil
+}
+
+func (c *c15Client) ValidatorSet(_ context.Context, req *coregrpc.ValidatorSetRequest, _ ...grpc.CallOption) (*coregrpc.ValidatorSetResponse, error) {
+	if c.sb == nil || req.Height != c.sb.Header.Height {
+		return nil, errors.New("scripted validator set failure")
+	}
+	vs, err := c.sb.ValidatorSet.ToProto()
+	if err != nil {
+		return nil, err
+	}
+	return &coregrpc.ValidatorSetResponse{ValidatorSet: vs, Height: req.Height}, nil
 }
 
 type c15Stream struct {
@@ -370,6 +441,7 @@ type c15Node struct {
 	ex       *Exchange
 	client   *c15Client
 	archival bool
+	hashAsked []byte // the hash of the last successful by-hash request
 }
 
 func c15NewNode(t *testing.T, w *c15World, archival bool, nSrc int, winOff bool) *c15Node {
@@ -606,6 +678,44 @@ func (n *c15Node) runExchange(op *c15Op, crashed *bool) (eh *header.ExtendedHead
 	return eh
 }
 
+// runHash drives the real Exchange.Get(ctx, hash). The served block is built first; the requested hash is its hash
+// (hash_ok) or the hash of some other block of the requested height.
+func (n *c15Node) runHash(op *c15Op, crashed *bool) (eh *header.ExtendedHeader) {
+	if *crashed {
+		op.Code = c15XErr
+		return nil
+	}
+	n.client.cur = op
+	n.client.sb = n.w.signedBlock(op)
+	defer func() { n.client.sb = nil }()
+	want := n.client.sb.Commit.BlockID.Hash.Bytes()
+	if !op.HashOK {
+		other := *op
+		other.TxSet, other.Consistent, other.ChainOK, other.AppVersion = 0, true, true, 9
+		want = n.w.signedBlock(&other).Commit.BlockID.Hash.Bytes()
+	}
+	n.normalise(op)
+	undo := func() {}
+	if op.StoreFail {
+		undo = n.blockStore(n.w.pool[op.TxSet])
+	}
+	var err error
+	p := zv.Recover(func() { eh, err = n.ex.Get(context.Background(), want) })
+	undo()
+	switch {
+	case p != "":
+		op.Code = c15XPanic
+		*crashed = true
+		return nil
+	case err != nil:
+		op.Code = c15XErr
+		return nil
+	}
+	op.Code = c15XHeader
+	n.hashAsked = want
+	return eh
+}
+
 // ---------------------------------------------------------------- Coq emission
 
 func c15N(x uint64) string { return strconv.FormatUint(x, 10) }
@@ -635,6 +745,12 @@ func (w *c15World) opTerm(op *c15Op) string {
 			fetch = "(Some " + w.blockTerm(op) + ")"
 		}
 		return "(OpExchange (mkxreq " + fetch + " " + zv.Bool(!op.StoreFail) + "))"
+	case "xhash":
+		fetch := "None"
+		if op.FetchOK {
+			fetch = "(Some " + w.blockTerm(op) + ")"
+		}
+		return "(OpHash (mkhreq " + fetch + " " + zv.Bool(op.Sync != "fail") + " " + zv.Bool(op.HashOK) + " " + zv.Bool(!op.StoreFail) + "))"
 	}
 	g := map[string]string{"square": "GSquare", "notfound": "GNotFound", "deadline": "GDeadline", "canceled": "GCanceled", "byzantine": "GByzantine",
 		"byz-deadline": "GByzDeadline", "byz-notfound": "GByzNotFound", "other": "GOther"}[op.Getter]
@@ -651,6 +767,7 @@ func c15GenHistory(rng *zv.Rand, nSets int, viaStart bool) *c15History {
 	type hb struct {
 		txset      int
 		inWindow   bool
+		edge       bool // inside the window, in its last hour
 		consistent bool
 		app        uint64
 	}
@@ -670,6 +787,9 @@ func c15GenHistory(rng *zv.Rand, nSets int, viaStart bool) *c15History {
 		}
 		if rng.Chance(5) {
 			blocks[i].app = 0
+		}
+		if blocks[i].inWindow && rng.Chance(30) {
+			blocks[i].edge = true
 		}
 	}
 	// per-source announcement sequences: gaps, duplicates, a lagging source replaying old heights; merged at random
@@ -723,7 +843,7 @@ func c15GenHistory(rng *zv.Rand, nSets int, viaStart bool) *c15History {
 		a := seqs[s][pos[s]]
 		pos[s]++
 		b := blocks[a.idx]
-		op := c15Op{Kind: "core", Height: base + int64(a.idx), ServeHeight: base + int64(a.idx), TxSet: b.txset, InWindow: b.inWindow || h.WinOff, Old: !b.inWindow,
+		op := c15Op{Kind: "core", Height: base + int64(a.idx), ServeHeight: base + int64(a.idx), TxSet: b.txset, InWindow: b.inWindow || h.WinOff, Old: !b.inWindow, Edge: b.edge,
 			Consistent: b.consistent, ChainOK: true, AppVersion: b.app, Src: a.src, FetchOK: !rng.Chance(15), Sync: "synced"}
 		switch {
 		case rng.Chance(10):
@@ -741,14 +861,14 @@ func c15GenHistory(rng *zv.Rand, nSets int, viaStart bool) *c15History {
 			op.StoreFail = false
 			op.ServeHeight-- // the endpoint answers with the previous block
 			op.TxSet, op.InWindow, op.Consistent, op.AppVersion = blocks[a.idx-1].txset, blocks[a.idx-1].inWindow || h.WinOff, blocks[a.idx-1].consistent, blocks[a.idx-1].app
-			op.Old = !blocks[a.idx-1].inWindow
+			op.Old, op.Edge = !blocks[a.idx-1].inWindow, blocks[a.idx-1].edge
 		}
 		h.Ops = append(h.Ops, op)
 		// interleave the other ingest paths on the same store
 		if !viaStart && rng.Chance(35) {
 			i := rng.Intn(nHeights)
 			b := blocks[i]
-			o := c15Op{Kind: "avail", Height: base + int64(i), ServeHeight: base + int64(i), TxSet: b.txset, InWindow: b.inWindow, Old: !b.inWindow, Consistent: true, ChainOK: true, AppVersion: 9,
+			o := c15Op{Kind: "avail", Height: base + int64(i), ServeHeight: base + int64(i), TxSet: b.txset, InWindow: b.inWindow, Old: !b.inWindow, Edge: b.edge, Consistent: true, ChainOK: true, AppVersion: 9,
 				Getter: []string{"square", "square", "square", "notfound", "deadline", "canceled", "byzantine", "byz-deadline", "byz-notfound", "other"}[rng.Intn(10)]}
 			if rng.Chance(12) && b.txset != 0 {
 				o.StoreFail = true
@@ -758,14 +878,46 @@ func c15GenHistory(rng *zv.Rand, nSets int, viaStart bool) *c15History {
 		if !viaStart && rng.Chance(12) {
 			i := rng.Intn(nHeights)
 			b := blocks[i]
-			o := c15Op{Kind: "xchg", Height: base + int64(i), ServeHeight: base + int64(i), TxSet: b.txset, InWindow: b.inWindow || h.WinOff, Old: !b.inWindow, Consistent: b.consistent, ChainOK: !rng.Chance(2), AppVersion: b.app,
+			o := c15Op{Kind: "xchg", Height: base + int64(i), ServeHeight: base + int64(i), TxSet: b.txset, InWindow: b.inWindow || h.WinOff, Old: !b.inWindow, Edge: b.edge, Consistent: b.consistent, ChainOK: !rng.Chance(2), AppVersion: b.app,
 				FetchOK: !rng.Chance(15)}
 			if rng.Chance(10) && b.txset != 0 {
 				o.StoreFail = true
 			}
 			h.Ops = append(h.Ops, o)
 		}
+		if !viaStart && rng.Chance(14) { // header request by hash
+			i := rng.Intn(nHeights)
+			b := blocks[i]
+			o := c15Op{Kind: "xhash", Height: base + int64(i), ServeHeight: base + int64(i), TxSet: b.txset, InWindow: b.inWindow || h.WinOff, Old: !b.inWindow, Edge: b.edge, Consistent: b.consistent,
+				ChainOK: !rng.Chance(2), AppVersion: b.app, FetchOK: !rng.Chance(12), HashOK: !rng.Chance(40), Sync: "synced"}
+			if rng.Chance(8) {
+				o.Sync = "fail" // commit / validator set of the served height not served
+			}
+			if !o.HashOK && rng.Chance(30) { // the mismatching block carries the square of another height
+				o.TxSet = blocks[rng.Intn(nHeights)].txset
+			}
+			if rng.Chance(10) && o.TxSet != 0 {
+				o.StoreFail = true
+			}
+			h.Ops = append(h.Ops, o)
+		}
 	}
+	return h
+}
+
+// c15EdgeHistory: every ingest path on blocks whose time lies in the last hour of the storage window (and a mismatching
+// by-hash answer before the announcement of that height).
+func c15EdgeHistory(archival bool) *c15History {
+	h := &c15History{Archival: archival, Sources: 2}
+	mk := func(kind string, height int64, txset int) c15Op {
+		return c15Op{Kind: kind, Height: height, ServeHeight: height, TxSet: txset, InWindow: true, Edge: true, Consistent: true, ChainOK: true, AppVersion: 9,
+			FetchOK: true, HashOK: true, Sync: "synced", Getter: "square"}
+	}
+	miss := mk("xhash", 15, 5)
+	miss.HashOK = false
+	late := mk("core", 15, 5)
+	late.Src = 1
+	h.Ops = []c15Op{mk("avail", 11, 1), mk("core", 12, 2), mk("xchg", 13, 3), mk("xhash", 14, 4), miss, late, mk("avail", 12, 2), mk("core", 11, 1), mk("avail", 16, 0)}
 	return h
 }
 
@@ -875,9 +1027,18 @@ func c15Run(t *testing.T, r *zv.Run, g *zv.Group, w *c15World, h *c15History) {
 					expectDAH[uint64(op.Height)] = w.pool[op.TxSet].roots.Hash()
 				}
 			}
-		case "xchg":
-			eh := n.runExchange(op, &crashed)
-			r.Count("exchange-outcome", strconv.Itoa(op.Code))
+		case "xchg", "xhash":
+			var eh *header.ExtendedHeader
+			if op.Kind == "xchg" {
+				eh = n.runExchange(op, &crashed)
+				r.Count("exchange-outcome", strconv.Itoa(op.Code))
+			} else {
+				eh = n.runHash(op, &crashed)
+				r.Count("by-hash-outcome", map[bool]string{true: "requested-block", false: "other-block"}[op.HashOK]+"->"+strconv.Itoa(op.Code))
+				if eh != nil && !bytes.Equal(eh.Hash(), n.hashAsked) {
+					viol("by-hash:returned-header-with-another-hash", fmt.Sprintf("op %d: Exchange.Get returned a header whose hash is not the requested one", i))
+				}
+			}
 			if eh != nil && (h.Archival || op.InWindow) {
 				if _, ok := expectDAH[eh.Height()]; !ok {
 					expectDAH[eh.Height()] = eh.DAH.Hash()
@@ -891,7 +1052,7 @@ func c15Run(t *testing.T, r *zv.Run, g *zv.Group, w *c15World, h *c15History) {
 			continue
 		}
 		after := n.snapshot(heights)
-		failed := (op.Kind == "core" && op.Code != c15Processed) || (op.Kind == "avail" && op.Code != c15AOk) || (op.Kind == "xchg" && op.Code != c15XHeader)
+		failed := (op.Kind == "core" && op.Code != c15Processed) || (op.Kind == "avail" && op.Code != c15AOk) || ((op.Kind == "xchg" || op.Kind == "xhash") && op.Code != c15XHeader)
 		if failed && !reflect.DeepEqual(before, after) {
 			viol("failed-ingest-left-something:"+op.Kind, fmt.Sprintf("op %d (%s height %d) failed with code %d but changed what the store serves", i, op.Kind, op.Height, op.Code))
 		}
@@ -905,6 +1066,16 @@ func c15Run(t *testing.T, r *zv.Run, g *zv.Group, w *c15World, h *c15History) {
 			}
 			if op.Consistent && (!p.Valid || !bytes.Equal(p.DAH, p.DataHash)) {
 				viol("published-header-inconsistent", fmt.Sprintf("op %d: the header published for a consistent block does not validate / its DAH does not hash to the data hash", i))
+			}
+		}
+		// a header whose time is inside the storage window (also in its last hour) is never refused as outside
+		if op.Kind == "avail" && !op.Old && op.Code == 31 {
+			viol("in-window-header-refused-as-outside:avail", fmt.Sprintf("op %d: the availability check refused height %d as outside the window although its time is inside availability.StorageWindow (edge=%v)", i, op.Height, op.Edge))
+		}
+		// an obtainable square for a header inside the window that is not yet kept: must now be kept
+		if op.Kind == "avail" && !op.Old && op.Getter == "square" && !op.StoreFail && !crashed {
+			if has, _ := n.st.HasByHeight(ctx, uint64(op.Height)); !has {
+				viol("obtained-block-not-stored:avail", fmt.Sprintf("op %d: the square of in-window height %d was obtained by the availability check but is not in the store", i, op.Height))
 			}
 		}
 		// obtainable in-window block announced for a height not yet kept: must now be kept (and published)
@@ -953,6 +1124,23 @@ func c15Run(t *testing.T, r *zv.Run, g *zv.Group, w *c15World, h *c15History) {
 		}
 	}
 
+	// inside the window (for every ingest path: a minute old or at the edge) the parity quadrant is kept too
+	for i := range h.Ops {
+		op := &h.Ops[i]
+		ts := w.pool[op.TxSet]
+		if op.Old || ts.empty || !c15NeverOld(h, op.TxSet) {
+			continue
+		}
+		for _, s := range final {
+			if s.Height == uint64(op.ServeHeight) && bytes.Equal(s.DAH, ts.roots.Hash()) && !s.Q4 {
+				viol("in-window-stored-without-q4", fmt.Sprintf("height %d (block time inside the storage window, edge=%v) is stored without its parity quadrant", s.Height, op.Edge))
+			}
+		}
+	}
+	for i := range h.Ops {
+		r.Count("block-time", h.Ops[i].Kind+"/"+map[bool]string{true: "old", false: map[bool]string{true: "edge", false: "recent"}[h.Ops[i].Edge]}[h.Ops[i].Old])
+	}
+
 	// ---- Coq case
 	ops := make([]string, len(h.Ops))
 	codes := make([]string, len(h.Ops))
@@ -981,6 +1169,16 @@ func c15Run(t *testing.T, r *zv.Run, g *zv.Group, w *c15World, h *c15History) {
 }
 
 // c15SoleUser: the square of this transaction set is used by out-of-window blocks only (the Q4 file is per data hash).
+// c15NeverOld: no block of the history with this square lies outside the window (the Q4 file is per data hash).
+func c15NeverOld(h *c15History, txset int) bool {
+	for _, op := range h.Ops {
+		if op.TxSet == txset && op.Old {
+			return false
+		}
+	}
+	return true
+}
+
 func c15SoleUser(h *c15History, w *c15World, txset int) bool {
 	for _, op := range h.Ops {
 		if op.TxSet == txset && op.InWindow {
@@ -1006,6 +1204,8 @@ func TestVerifC15(t *testing.T) {
 		c15Run(t, r, g, w, &rp)
 		return
 	}
+	c15Run(t, r, g, w, c15EdgeHistory(false))
+	c15Run(t, r, g, w, c15EdgeHistory(true))
 	for i := 0; i < r.N(160, 2500); i++ {
 		c15Run(t, r, g, w, c15GenHistory(rng.Fork(uint64(i)), nSets, false))
 	}
